@@ -6,7 +6,7 @@ lib, log = C.build_lib()
 if not lib:
     print('LIB BUILD FAILED', log[-2000:]); sys.exit(2)
 rc_all = 0
-for t in ['test/Factored/FilterMapTests.cpp', 'test/UtilsCoreTests.cpp']:
+for t in ['test/Factored/FilterMapTests.cpp', 'test/UtilsCoreTests.cpp', 'test/Factored/UtilsTests.cpp']:
     exe = os.path.join(tempfile.gettempdir(), 'c20-ut-' + os.path.basename(t)[:-4])
     cmd = [C.CXX] + C.CXXFLAGS + ['-I' + os.path.join(C.REPO, 'test'), os.path.join(C.REPO, t), lib] + C.LDLIBS + ['-lboost_unit_test_framework', '-o', exe]
     p = subprocess.run(cmd, capture_output=True, text=True)
